@@ -23,7 +23,7 @@ def fuzz_specs(tier, seed, modname, scale=1.0):
     """16 libFuzzer campaigns (half from an empty corpus, half from a few enumerated graphs)."""
     if not modname:
         return []
-    runs = max(200, int((2500 if tier == "quick" else 60000) * scale))
+    runs = max(200, int((2500 if tier == "quick" else 12000) * scale))
     max_n = 12 if tier == "quick" else 20
     # quick: too short for an empty corpus to grow beyond chains, so every campaign starts from enumerated graphs
     return [("fuzz", modname, seed, s, runs, max_n, "corpus" if tier == "quick" else ("empty", "corpus")[s % 2]) for s in range(16)]
